@@ -48,6 +48,9 @@ std::istream& read(std::istream& stream, tensor_t<tstorage, tscalar, trank>& ten
         return stream;
     }
 
+    // NB: release the previous content first, so that a failed allocation (e.g. corrupted dimensions)
+    //     doesn't leave the tensor with a dangling buffer!
+    tensor.resize(typename tensor_t<tstorage, tscalar, trank>::tdims{});
     tensor.resize(dims);
     if (!::nano::read(stream, tensor.data(), tensor.size()) || // content
         ihash != detail::hash(tensor.data(), tensor.size()))
